@@ -196,7 +196,7 @@ func (e *Engine) modelSync(p *Path, fn *ssa.Function, full string, args []Value,
 						break
 					}
 					if len(st.tasks) == 0 {
-						panic(blockedErr{"WaitGroup.Wait would block forever"})
+						panic(blockedErr{"WaitGroup.Wait would block forever", st.G})
 					}
 					sts := e.runOneTask(st, depth)
 					if len(sts) == 0 {
